@@ -22,6 +22,8 @@ def cases(tier):
     n = 6 if tier == 'thorough' else 4
     for d in range(1, 5):
         cs.append((play.case_bmc, f'H2 BMC first {n} plays, declarer {d}', dict(props=PROPS, n=n, declarer=d)))
+    for when in ('before', 'after'):
+        cs.append((play.case_two_boards, f'H3 a second board constructed {when} the lead to a first one is a fresh board', dict(props=PROPS, when=when)))
     return cs
 
 
